@@ -6,6 +6,7 @@ import Driver.Sym
 import Driver.TwoPass
 import Driver.Sim
 import Driver.Mem
+import Driver.FileIO
 
 def dispatch (line : String) : String :=
   match (line.trimAscii.toString.splitOn " ").filter (· ≠ "") with
@@ -30,6 +31,9 @@ def dispatch (line : String) : String :=
   | "dislen" :: args => Driver.Sim.handleDisLen args
   | "mem" :: args => Driver.Mem.handleMem args
   | "dir" :: args => Driver.Mem.handleDir args
+  | "wr" :: args => Driver.FileIO.handleWr args
+  | "s0" :: args => Driver.FileIO.handleS0 args
+  | "rd" :: args => Driver.FileIO.handleRd args
   | _ => "bad-op"
 
 partial def loop (h : IO.FS.Stream) (out : IO.FS.Stream) : IO Unit := do
